@@ -302,6 +302,8 @@ public:
             TimeRec tr; tr.dev = dev; opn2_setRawEventHook(dev, timeHook, &tr);
             int sel = select % songs; if(sel > 0) run.count("xmi.song_selected_gt0");
             opn2_selectSongNum(dev, sel);
+            // a third of the runs open the file on a player that has already opened an XMI file (the same bytes): the song list is the new file's, not the two appended
+            if(mix64((uint64_t)file.size() * 2654435761u + (uint64_t)songs, 0x17A) % 3 == 0) { opn2_openData(dev, file.data(), (unsigned long)file.size()); run.count("xmi.opened_after_another_xmi"); }
             if(opn2_openData(dev, file.data(), (unsigned long)file.size()) != 0) run.fail("wellformed-xmi-rejected", "xmi", opn2_errorInfo(dev));
             else
             {
